@@ -152,13 +152,27 @@ impl<T: Zoo + CanonicalSerialize> Zoo for Vec<T> {
 }
 impl<T: Zoo> Zoo for VecDeque<T> {
     fn from_flat(it: &mut It<'_>) -> Self {
-        // built by alternating push_front/push_back-free construction would not change the
-        // logical order; rotate once so that the ring buffer is not contiguous
-        let mut d: VecDeque<T> = (0..count(it)).map(|_| T::from_flat(it)).collect();
-        if d.len() > 1 {
-            let x = d.pop_back().unwrap();
+        // the logical order is the order of the flat list, but the ring buffer is WRAPPED (two non-empty runs in
+        // as_slices()): the second half is pushed at the back first, then the first half is pushed at the front in reverse
+        // (push_front on a deque whose head is at physical index 0 writes at the end of the buffer); no reallocation
+        // happens in between because the capacity is reserved up front
+        let items: Vec<T> = (0..count(it)).map(|_| T::from_flat(it)).collect();
+        let n = items.len();
+        let k = n / 2;
+        let mut d: VecDeque<T> = VecDeque::with_capacity(n);
+        let mut first: Vec<T> = vec![];
+        for (i, x) in items.into_iter().enumerate() {
+            if i < k {
+                first.push(x);
+            } else {
+                d.push_back(x);
+            }
+        }
+        while let Some(x) = first.pop() {
             d.push_front(x);
-            d.rotate_left(1);
+        }
+        if n >= 2 {
+            assert!(!d.as_slices().1.is_empty(), "harness: the deque is contiguous");
         }
         d
     }
